@@ -121,6 +121,8 @@ pub enum Ins {
     Conv { from: NumK, to: NumK },
     /// string(integer)
     IntToStr { unsigned: bool },
+    /// []rune(s) / []int32(s): the code points of the string (invalid UTF-8 bytes give U+FFFD)
+    StrToRunes,
     ToIface(TypeId),
     /// x.(T)
     Assert { target: TypeId, target_iface: bool, src: TypeId },
